@@ -171,7 +171,7 @@ fn process_source(cx: &mut Ctx, ev: &mut Ev, src: &Source, rng: &mut Rng, run_it
             cx.trace_points += tc.points as u64;
             ev.add("trace-points", tc.points as u64);
             ev.hit(&format!("trace-depth:{}", tc.max_depth.min(8)));
-            if let Some((k, what)) = tc.mismatch {
+            if let Some((k, what)) = tc.mismatch.clone() {
                 let (f, pc, _, _) = trace[k];
                 ev.violation(
                     "trace kind=shape-mismatch",
@@ -184,6 +184,29 @@ fn process_source(cx: &mut Ctx, ev: &mut Ev, src: &Source, rng: &mut Rng, run_it
                 );
             }
             ev.add("stores-checked", tc.stores_checked as u64);
+            // every distinct observed step through the Lean `stepInstr`
+            if tc.mismatch.is_none() {
+                let reqs: Vec<String> = tc.steps.keys().cloned().collect();
+                let answers = cx.model.ask_all(&reqs);
+                ev.add("steps-replayed-in-model", reqs.len() as u64);
+                for (req, ans) in reqs.iter().zip(answers.iter()) {
+                    let expect = &tc.steps[req];
+                    let mut it = req.split_whitespace().skip(1);
+                    if let (Some(Ok(rf)), Some(Ok(rpc))) = (it.next().map(|x| x.parse::<usize>()), it.next().map(|x| x.parse::<usize>())) {
+                        ev.hit(&format!("step-op:{}", instr_token(&bc.functions[rf].instructions[rpc]).split(':').next().unwrap()));
+                    }
+                    if ans != expect {
+                        ev.violation(
+                            "step kind=stepInstr-differs",
+                            &format!("{}: executor step corresponds to `{expect}` but the model's stepInstr answers `{ans}` to `{req}`", src.origin),
+                            json!({"broken": "correspondence stepInstr <-> executor handler (per-step shape replay)",
+                                   "origin": src.origin, "source": src.text, "request": req, "model": ans, "executor": expect}),
+                            false,
+                        );
+                        break;
+                    }
+                }
+            }
             if let Some((f, pc, first, now, k)) = tc.misaligned {
                 ev.violation(
                     "run kind=misaligned-local",
